@@ -1,6 +1,7 @@
 package consul
 
 import (
+	"bytes"
 	"fmt"
 	"log"
 	"net"
@@ -9,6 +10,7 @@ import (
 	"strconv"
 	"strings"
 
+	froute "github.com/fabiolb/fabio/route"
 	"github.com/hashicorp/consul/api"
 )
 
@@ -98,6 +100,14 @@ func (r routecmd) build() []string {
 			}
 			if len(ropts) > 0 {
 				cfg += " opts " + strconv.Quote(strings.Join(ropts, " "))
+			}
+
+			// a command which fabio's own route parser rejects would make every
+			// routing table which contains it invalid and thereby block the
+			// updates for all other services. Drop it on its own instead.
+			if _, err := froute.NewTable(bytes.NewBufferString(cfg)); err != nil {
+				log.Printf("[WARN] consul: Skipping invalid route %q of service %q: %s", cfg, name, err)
+				continue
 			}
 
 			config = append(config, cfg)
